@@ -637,6 +637,102 @@ fn run_mapcase(idx: u64, acc: &mut Acc) {
 }
 
 // ---------------------------------------------------------------------------
+// maps: bodies that fail differently on different keys. Evaluation stops at the first key whose
+// body fails, so with one fixed key order the class of the error is fixed too.
+
+const FAILBODIES: [(&str, &str); 4] = [
+    ("filter", "{M}.filter(k, k == 'a' || k == 'c' ? 1 / z > 0 : (k == 'b' ? int(w) > 0 : true))"),
+    ("map", "{M}.map(k, k == 'a' || k == 'c' ? 1 / z : (k == 'b' ? int(w) : 1))"),
+    ("map3-predicate", "{M}.map(k, k == 'a' || k == 'c' ? 1 / z > 0 : (k == 'b' ? int(w) > 0 : true), k)"),
+    ("map3-expression", "{M}.map(k, true, k == 'a' || k == 'c' ? 1 / z : (k == 'b' ? int(w) : 1))"),
+];
+
+fn failbody_size() -> u64 {
+    15 * FAILBODIES.len() as u64
+}
+
+fn run_failbody(idx: u64, acc: &mut Acc) {
+    let nm = FAILBODIES.len() as u64;
+    let subset = (idx / nm) as usize + 1;
+    let (name, tmpl) = FAILBODIES[(idx % nm) as usize];
+    let keys: Vec<&str> = (0..4).filter(|i| subset & (1 << i) != 0).map(|i| MKEYS[i]).collect();
+    let mut first: Option<(String, String)> = None;
+    for perm in permutations(keys.len()) {
+        let order: Vec<&str> = perm.iter().map(|i| keys[*i]).collect();
+        for build in ["literal", "literal-vars", "bound", "json"] {
+            let mut b = BindContext::new();
+            b.bind_param("z", CelValue::Int(0));
+            b.bind_param("w", CelValue::String("x".to_string()));
+            let msrc = match build {
+                "literal" => format!("{{{}}}", order.iter().map(|k| format!("{}: 1", str_lit(k))).collect::<Vec<_>>().join(", ")),
+                "literal-vars" => {
+                    b.bind_param("one", CelValue::Int(1));
+                    format!("{{{}}}", order.iter().map(|k| format!("{}: one", str_lit(k))).collect::<Vec<_>>().join(", "))
+                }
+                "bound" => {
+                    let mut h = HashMap::new();
+                    for k in &order {
+                        h.insert(k.to_string(), CelValue::Int(1));
+                    }
+                    b.bind_param("m", CelValue::Map(h));
+                    "m".to_string()
+                }
+                _ => {
+                    let mut o = serde_json::Map::new();
+                    let mut inner = serde_json::Map::new();
+                    for k in &order {
+                        inner.insert(k.to_string(), json!(1));
+                    }
+                    o.insert("m".to_string(), serde_json::Value::Object(inner));
+                    let _ = b.bind_params_from_json_obj(serde_json::Value::Object(o));
+                    "m".to_string()
+                }
+            };
+            let src = tmpl.replace("{M}", &msrc);
+            // a fresh program (and with it a fresh map constant) for every repetition
+            for rep in 0..4 {
+                let got = real::eval_with(&src, &b);
+                acc.eval();
+                acc.class(&got.class());
+                let case = || json!({"src": src, "built": build, "insertion_order": order, "repetition": rep, "bindings": "z = 0, w = 'x'"});
+                if got.is_panic() || got.is_compile_fail() {
+                    acc.violation(&format!("map-macro failing-body {} panic-or-compile-error", name), case(), "a value or an error".into(), got.show());
+                    continue;
+                }
+                let sig = match &got {
+                    Outcome::Value(_) => format!("value {}", got.show()),
+                    Outcome::Fail(k, _) => format!("fail {:?}", k),
+                    _ => got.class(),
+                };
+                // only the key d: no body fails
+                let must_fail = keys.iter().any(|k| *k != "d");
+                if must_fail != got.is_fail() {
+                    acc.violation(&format!("map-macro failing-body {} failure-lost-or-invented", name), case(), if must_fail { "an error".into() } else { "a value".into() }, got.show());
+                    continue;
+                }
+                match &first {
+                    None => first = Some((sig, format!("{} / {}", src, build))),
+                    Some((f, how)) => {
+                        if *f != sig {
+                            acc.violation(
+                                &format!("map-macro failing-body {} outcome-depends-on-the-map-instance", name),
+                                case(),
+                                format!("the same outcome as for the same key set before ({}): {}", how, f),
+                                sig,
+                            );
+                        }
+                    }
+                }
+            }
+        }
+    }
+    acc.nontrivial(&("failing-bodies", idx));
+    if acc.wants_sample() {
+        acc.sample(json!({"keys": keys, "macro": name, "outcome": first.map(|f| f.0)}));
+    }
+}
+
+// ---------------------------------------------------------------------------
 // elements of every type (the list families above use ints)
 
 fn typed_elems() -> Vec<V> {
@@ -793,6 +889,7 @@ pub fn replay_families(t: Tier) -> Vec<Family<'static>> {
     vec![
         Family::new("list-macros", sp.size(), move |i, a| sp.run(i, a)),
         Family::new("map-key-order", 15 * MAPMACROS.len() as u64, run_mapcase),
+        Family::new("map-failing-bodies", failbody_size(), run_failbody),
         Family::new("typed-elements", typed_size(), run_typed),
         Family::new("shadowed-programs", shadow_size(), run_shadow),
     ]
@@ -802,7 +899,7 @@ pub fn run(t: Tier) -> i32 {
     let mut rep = Report::new(ID, t, "exploration");
     let sp = Space::new(t);
     rep.rule = format!(
-        "list-macros: {} lists (all lists of length <= {} over {{0,1,2}}, all 0/1 lists up to length {}, lists of length {} with at most {} ones - beyond the call-depth limit of 32) x {} macro forms (all/exists/exists_one/filter x 11 bodies, map/2 x 4, map/3 x 20, reduce x 6; bodies read the loop variable, an outer variable, a stored program, inner macros re-using the name or reading the outer loop variable, a call-recording function, fail at the element 1, or read an unbound name) x literal/bound list x outer binding of the loop variable name absent/100 x the name read before/after the macro; the result and the exact log of recorded calls (visiting order and stopping point) must equal the defining fold, and the caller's binding of the name must be unchanged. map-key-order: every non-empty subset of 4 keys x 5 macro forms, the map built in every insertion order as literal, literal with variable values, bound HashMap and JSON, evaluated twice each: a permutation of the images and always the same permutation. typed-elements: all lists of length <= 3 over 10 elements of every type (strings, lists, maps, null, double, bool, bytes, uint) x 9 macro forms whose result is determined by identity and truthiness, literal and bound. shadowed-programs: all lists of length <= 3 over {{0,1,2}} x all macro forms with programs stored under the loop-variable names (x, acc). Non-trivial = every case; distinct by (index, form)",
+        "list-macros: {} lists (all lists of length <= {} over {{0,1,2}}, all 0/1 lists up to length {}, lists of length {} with at most {} ones - beyond the call-depth limit of 32) x {} macro forms (all/exists/exists_one/filter x 11 bodies, map/2 x 4, map/3 x 20, reduce x 6; bodies read the loop variable, an outer variable, a stored program, inner macros re-using the name or reading the outer loop variable, a call-recording function, fail at the element 1, or read an unbound name) x literal/bound list x outer binding of the loop variable name absent/100 x the name read before/after the macro; the result and the exact log of recorded calls (visiting order and stopping point) must equal the defining fold, and the caller's binding of the name must be unchanged. map-key-order: every non-empty subset of 4 keys x 5 macro forms, the map built in every insertion order as literal, literal with variable values, bound HashMap and JSON, evaluated twice each: a permutation of the images and always the same permutation. map-failing-bodies: the same key sets, orders and four ways of building the map x 4 macro forms (filter, map/2, map/3 predicate, map/3 expression) whose body divides by zero on the keys a and c, fails to convert on b and succeeds on d, four fresh programs each: the outcome (value, or class of the error - the first failing key decides it) must be the same for every instance of the same key set. typed-elements: all lists of length <= 3 over 10 elements of every type (strings, lists, maps, null, double, bool, bytes, uint) x 9 macro forms whose result is determined by identity and truthiness, literal and bound. shadowed-programs: all lists of length <= 3 over {{0,1,2}} x all macro forms with programs stored under the loop-variable names (x, acc). Non-trivial = every case; distinct by (index, form)",
         sp.lists.len(),
         t.pick(5, 6),
         t.pick(8, 10),
@@ -812,6 +909,7 @@ pub fn run(t: Tier) -> i32 {
     );
     rep.run_family(Family::new("list-macros", sp.size(), |i, a| sp.run(i, a)));
     rep.run_family(Family::new("map-key-order", 15 * MAPMACROS.len() as u64, run_mapcase));
+    rep.run_family(Family::new("map-failing-bodies", failbody_size(), run_failbody));
     rep.run_family(Family::new("typed-elements", typed_size(), run_typed));
     rep.run_family(Family::new("shadowed-programs", shadow_size(), run_shadow));
     rep.assumptions = vec![
